@@ -922,8 +922,9 @@ class TreeTransform(Generic[TreeFnT]):
     for fn in self.fns:
       non_dict_keys, dict_keys = mit.partition(_is_dict, fn.output_keys)
       # Aggregate and Assign/Apply Ops are separated into different transforms.
-      # The base TreeFn means this is an Apply Op.
-      if type(fn) is tree_fns.TreeFn:  # pylint: disable=unidiomatic-typecheck
+      # The base TreeFn means this is an Apply Op. Like Apply, Select replaces
+      # the record, only its own output keys exist afterwards.
+      if type(fn) in (tree_fns.TreeFn, tree_fns.Select):  # pylint: disable=unidiomatic-typecheck
         result = set()
       result.update(itertools.chain(non_dict_keys, *dict_keys))
     # SKIP is a placeholder for an ignored output, not a key of the outputs.
